@@ -2,7 +2,7 @@ claim(
     "C11",
     "Hypothesis rule-based state machine vs. list model of pending events; exhaustive small-scope enumeration of op sequences",
     "Exploration: 600 (quick) / 60 000 (thorough) generated histories of up to 30 queue operations incl. JSON round trips, plus ALL op sequences up to length 4 (quick) / 5 (thorough) over 13 operations; every retrieval and every len/empty/last-timestamp answer is compared with a list model. No absence proof beyond the enumerated scope.",
-    "Trusted: the list model and the type-rank table (unplug<plug-in<recompute) in acnverif/props/c11.py; integer timestamps; ties on (timestamp, type) may come out in any order.",
+    "Trusted: the list model and the type-rank table (unplug<plug-in<recompute) in acnverif/props/c11.py; integer timestamps; ties on (timestamp, type) may come out in any order from one queue (a restored queue must follow its original).",
     "DESIGN.md 3/C11",
 )
 claim(
@@ -138,3 +138,30 @@ claim(
     "Trusted: the fake transport and parameter parsing in acnverif/props/c20.py; zone rules from the interpreter's tz database; filter strings without '&'.",
     "DESIGN.md 3/C20",
 )
+
+
+# ---- additions of the third and fourth seeded rounds (appended to the level texts above) ----
+ROUND34 = {
+    "C01": "Scenarios also contain EVSEs without upper limit (infinite pilots), pilots up to 1e-3 A off an allowable value, periods 0.125 and 2.05 min.",
+    "C02": "In a third of the simulations the run is interrupted at a generated call, another scheduler object is installed with update_scheduler and the run continued (ledger and peak speak about the whole trajectory); battery initial charges 1e-4..1e-2 kWh below capacity; charging_rates_as_df / index_of_evse agree with the matrices.",
+    "C03": "Initial charges a hair below capacity (head-room of the order of the 1e-3 kWh fully-charged tolerance) are part of the battery generator.",
+    "C04": "Scripted pilots include values up to 1e-3 A off an allowable value (finite-rate EVSEs), infinite pilots on EVSEs without upper limit, and a family with an all-integer schedule for every station in period 0 reaching the last event followed by fractional schedules.",
+    "C05": "A third of the histories hold explicit UnplugEvents ahead of a departure (the simulator's own unplug then finds the station empty or re-occupied and is an event of its period all the same).",
+    "C06": "Every question is asked twice and in both orders (linear first / phase-aware first), optionally after a lenient what-if query of the same shape, and the InfrastructureInfo handed to the algorithm-side check must be unchanged; schedules also with entries of both signs (phase-aware statement only), whole-number rows handed to the interface as Python ints, columns that are permutations of each other.",
+    "C07": "Constraint coefficients up to 2; a constructed family with an estimator bound of exactly 0 A (label estimator_bound_exactly_zero).",
+    "C08": "Sub-check greedy_session_bounds: an adapter interface whose finite level lists omit the implied 0 A and sessions narrowed with max_rates - the largest listed level that fits, 0 A when none does.",
+    "C09": "The event history is compared as the ORDERED list of (time, type, session): simultaneous events must be processed in the order of the uninterrupted run.",
+    "C10": "Half of the scenarios have estimated departures before the real departure (several connected sessions past their estimate); for max_recompute None the shifted run must be asked in exactly the shifted periods, also with a playback scheduler keyed by call count.",
+    "C11": "Queries (len / empty / last timestamp) are operations of the history - in half of the machines asked only where generated, so a query that repairs a cache cannot hide it; events may share a session; after a JSON round trip the original queue receives the same operations and must return the same events in the same order.",
+    "C12": "Rule equally_named_then_remove (two constraints of one name, one removed); the Current object of an earlier add handed in again; unnamed constraints must be called _const_<position>.",
+    "C13": "Infinite advertised maxima are fed back like every advertised value; pilots 1e6 / 1e12 / inf / NaN; allowable rates given as list, tuple, array, set, Series, generator or map.",
+    "C15": "Documents carry pytz, zoneinfo or fixed-offset time zones, sessions spanning a DST change of their own zone with max_len within an hour of the true stay; integer sample matrices.",
+    "C16": "Networks built through keyword / positional arguments and the deprecated CaltechACN alias, as ChargingNetwork or StochasticNetwork, EVSE voltage 208/240/120; a lenient what-if query asked first; two-period schedules (the same total spread evenly, then the judged allocation); one transformer oversized (1e6 / 1e9 / inf kW) with pods, sub-panels and the other transformer still judged.",
+    "C17": "Vectors and simulation starts also pytz / zoneinfo / UTC aware, incl. a family from the evening before a US DST change to the Monday after; energy_cost / demand_charge with another bundled tariff than the simulation carries.",
+    "C18": "Periods 0.125 and 2.05 min with datetimes judged against exact rational arithmetic (1 ms); a quarter of the scenarios are single-phase sites with mixed-sign constraints.",
+    "C20": "Time series spanning months or out of time order; arbitrary float energy thresholds compared numerically; sub-check interleaved_generators (two generators of one client consumed nested or in turns against a transport serving pages by URL).",
+}
+for _pid, _add in ROUND34.items():
+    if _pid in CHECKS:
+        _t, _text, _note, _ref = CHECKS[_pid]
+        CHECKS[_pid] = (_t, _text + " " + _add, _note, _ref)
